@@ -22,12 +22,15 @@ BOUNDS = {
     "quick": "stored layouts of <=3 chunks / <=4 rows (overlapping rows allowed), optionally rechunked on save; range "
              "endpoints a<b anywhere on Z; both time_selection modes; selection callable with symbolic threshold; "
              "keep/drop column sets; time_range / seconds_range / time_within; one and two same-kind targets; both "
-             "processors",
+             "processors; seconds_range endpoints k/512 and k/1000 s with an epoch-size run start; a time_range together "
+             "with a seconds_range or a time_within row",
     "thorough": "<=4 chunks / <=5 rows",
 }
 ASSUMPTIONS = ["all time values in [0, 2^62); the run has positive duration", "selection given as a callable (numexpr "
-               "strings are a C extension)", "integer seconds_range (float seconds involve float->int rounding)"]
-OUTSIDE = ["selection strings (numexpr)", "float seconds_range", "frontends other than the in-memory one"]
+               "strings are a C extension)", "seconds_range: integer seconds symbolically; fractional seconds are concrete dyadic / decimal fractions whose "
+               "float arithmetic is executed as such, decided by the native replay of the path witnesses"]
+OUTSIDE = ["selection strings (numexpr)", "float seconds_range other than the listed fractions (an FP lemma over all "
+           "k/1000 did not finish: z3 unknown at 120 s, cvc5 time-out at 300 s)", "frontends other than the in-memory one"]
 STUBS = ["np constructors -> object arrays", "min/max/int shims", "formatting stubs", "scheduler for the threaded run"]
 RUN = "0"
 
